@@ -22,7 +22,7 @@ LIST_SETUPS = {
     'param-assign': ['a := [@h10@, @h11@]', 'b := [7, 8]', 'fn f(p, q) {', '    p = [1, 1]', '    q[0] = 77', '    return p', '}', 'c := [f(a, b), 5]'],
     'object-field': ['a := [@h10@, @h11@]', 'o := {"k": a}', 'b := o.k', 'c := [o["k"], 5]'],
 }
-LIST_OPS = ['b[:] = [0, @h%d@]', 'fn same(l) {\n    return l\n}\nd := same(a) + [@h%d@]\nprint(d === a)\nprint(d)', 'a[0] = @h%d@', 'b[0] = @h%d@', 'c[0][1] = @h%d@', 'a += [@h%d@]', 'b += [@h%d@]', 'a[0:1] = [@h%d@]', 'c[0] = [@h%d@]', 'b = [@h%d@]', 'c[0] += [@h%d@]', 'c[0] += c[0]', 'print(0)']
+LIST_OPS = ['b = [a[0], a[1]]\nprint(b === a)', 'b = a + []\nprint(@h%d@)', 'b[:] = [0, @h%d@]', 'fn same(l) {\n    return l\n}\nd := same(a) + [@h%d@]\nprint(d === a)\nprint(d)', 'a[0] = @h%d@', 'b[0] = @h%d@', 'c[0][1] = @h%d@', 'a += [@h%d@]', 'b += [@h%d@]', 'a[0:1] = [@h%d@]', 'c[0] = [@h%d@]', 'b = [@h%d@]', 'c[0] += [@h%d@]', 'c[0] += c[0]', 'print(0)']
 OBJ_SETUPS = {
     'alias': ['a := {"k": @h10@, "j": @h11@, "lst": [1]}', 'b := a', 'c := {"in": a}', 'l0 := a.lst'],
     'spread-fresh': ['a := {"k": @h10@, "j": @h11@, "lst": [1]}', 'b := {a..}', 'c := {"in": {a..}}', 'l0 := a.lst'],
@@ -61,6 +61,10 @@ def templates(tier, seed=0):
     oselfops = ['o.k = o', 'p.k = o', 'o["me"] = p', 'o.k = {"in": o}\nprint(o.k.in === p)', '{"k": o.k} = {"k": p}', 'o.k = [o]\nprint(o.k[0] === p)']
     oobs = ['print(o === p)', 'for [k, v] in o {', '    if v->type() == "object" {', '        print(k)', '        print(v === o)', '        print(v === p)', '    }', '}', 'p.j = @h12@', 'print(o.j)']
     ts.append({'name': 'store-self-object', 'src': '\n'.join(['s := @h0@', 'o := {"k": @h10@, "j": @h11@}', 'p := o'] + ladder('s', oselfops) + oobs) + '\n', 'assume': lambda v: [v['h0'] >= 0, v['h0'] <= len(oselfops)]})
+    # a slice is a new list that shares its elements with the original
+    ts.append({'name': 'slice-shares-elements', 'src': 'e := [@h10@]\no := {"k": 1}\nxs := [e, o, 3]\ns := xs[0:2]\nprint(s === xs)\nprint(s[0] === e)\nprint(s[1] === o)\ns[0][0] = @h11@\nprint(e)\nt := xs[:]\nt[1].k = @h12@\nprint(o)\nu := xs[1:]\nu[0] = 0\nprint(xs[1] === o)\nfor [i, v] in xs[:2] {\n    print(v === xs[i])\n}\n'})
+    # assigning a container that is equal to, but distinct from, the current one replaces it
+    ts.append({'name': 'assign-equal-distinct', 'src': 'a := [@h10@, 2]\nb := a\nb = [a[0], a[1]]\nprint(b === a)\nb[0] = @h11@\nprint(a)\no := {"k": [1]}\np := o\np = {"k": o.k}\nprint(p === o)\np.k = 5\nprint(o)\nxs := []\nys := xs\nxs += []\nprint(xs === ys)\n[m, n] := [a, a]\n[m, n] = [[@h10@, 2], n]\nprint(m === a)\n'})
     # immutable kinds: no operation on a copy is visible through the original
     ts.append({'name': 'immutable', 'src': 'n := @h10@\nm := n\nm += 1\nprint(n)\ns := "ab"\nt := s\nt += "c"\nprint(s)\nprint(t)\nxs := [n, s, true, null]\nys := xs + []\nys[0] = 0\nys[1] = "zz"\nprint(xs)\nfn f(p, q) {\n    p += 1\n    q += "x"\n    return p\n}\nf(n, s)\nprint(n)\nprint(s)\no := {"k": s}\nu := o.k\nu += "!"\nprint(o)\n'})
     # a closure and its definer share the captured container
